@@ -3,7 +3,7 @@ import Rtsp.Proofs.Codec.H265Rt
 Property theorems for pkg/format/rtph265: round trip (C03) and resynchronisation (C07).
 
   C03  c03_encode_eq, c03_roundtrip, c03_roundtrip_many
-  C07  c07_flush, c07_resync
+  C07  c07_flush, c07_resync, c07_ok_only_at_marker
 
 The H265 decoder has no timestamp flush: the marker alone ends an access unit, so the flush theorem
 holds from ANY state at full strength.
@@ -224,6 +224,49 @@ theorem c07_resync (h : List Pkt) (e : Enc) (f g : List Bytes) (tf tg : UInt32)
     show ValidCfg (encode e f).1.cfg
     rw [(c03_encode_eq e f hf).2]; exact hc
   exact c03_roundtrip e1 g tg _ hc1 hg hclean
+
+/-- **C07 "exactly once"**: an access unit is returned only at a packet that carries the marker, and
+the buffer is empty afterwards (it cannot be returned again). -/
+theorem c07_ok_only_at_marker (d : Dec) (p : Pkt) (f : List Bytes) (h : (decode d p).2 = .ok f) :
+    p.marker = true ∧ (decode d p).1.frameBuffer = [] := by
+  unfold decode at h ⊢
+  split at h
+  · simp at h
+  · simp at h
+  · simp at h
+  · rename_i d1 ns heq
+    unfold addNALUs at h ⊢
+    split at h
+    · simp at h
+    · rename_i h1
+      dsimp only at h ⊢
+      split at h
+      · simp at h
+      · rename_i h2
+        split at h
+        · simp at h
+        · rename_i hm
+          simp only [h1, h2, hm, if_false]
+          exact ⟨by simpa using hm, by simp [Dec.resetFrameBuffer]⟩
+
+/-! ### the validity predicate is what the code needs (each restriction has a failing frame) -/
+
+def vEnc : Enc := { cfg := { pt := 96, ssrc := 7, max := 14 }, seq := 0 }
+def body (k : Nat) : Bytes := (List.range k).map (fun i => UInt8.ofNat (i + 2))
+
+/-- unlike H264, the forbidden_zero_bit survives fragmentation (the FU payload header keeps it) -/
+example : (runDec {} (stamp 0 (pkts vEnc [0xa6 :: 0x01 :: body 24]))).2.getLast? = some (.ok [0xa6 :: 0x01 :: body 24]) := by
+  decide
+/-- `00 00 01` inside a fragmented NALU: `splitNALUs` returns two NALUs -/
+example : (runDec {} (stamp 0 (pkts vEnc [0x26 :: 0x01 :: (body 8 ++ [0, 0, 1] ++ body 12)]))).2.getLast?
+    = some (.ok [0x26 :: 0x01 :: body 8, body 12]) := by decide
+/-- … but not inside a NALU that travels in a single-NALU packet -/
+example : (runDec {} (stamp 0 (pkts vEnc [[0x26, 1, 0, 0, 1, 7]]))).2 = [.ok [[0x26, 1, 0, 0, 1, 7]]] := by decide
+/-- NALU type 49 (FU) as a single NALU is read as a fragment; type 50 (PACI) is refused -/
+example : (runDec {} (stamp 0 (pkts vEnc [[0x62, 0x01, 0x05, 1]]))).2 = [.nonStart] := by decide
+example : (runDec {} (stamp 0 (pkts vEnc [[0x64, 0x01, 0x05, 1]]))).2 = [.err] := by decide
+/-- a 1-byte NALU next to another one: the encoder refuses the access unit -/
+example : (encode vEnc [[0x40, 0x01], [0x42]]).2 = none := by decide
 
 /-! ## non-vacuity -/
 
